@@ -106,9 +106,9 @@ def use_miss_reason(case, table, node, v, rinner, arrays):
         st = ent['stmt']
         actuals = list(st[2]) + list((st[3] if len(st) > 3 and st[3] else {}).values())
         ints = callee_intents(case, st)
-        bound = sorted({str(ints[k]) if k < len(ints) else '?' for k, a_ in enumerate(actuals) if v in vars_in(a_)})
+        bound = sorted({str(ints[k]) if k < len(ints) else '?' for k, a_ in enumerate(actuals) if v in dc.fold(vars_in(a_))})
         return 'reader-uses-set-misses-it:call:dummy-intent=' + (bound[0] if bound else 'not-an-argument')
-    if ent is not None and v in mem_query_args(header_exprs(ent['stmt'])):
+    if ent is not None and v in dc.fold(mem_query_args(header_exprs(ent['stmt']))):
         return 'reader-uses-set-misses-it:mem-query-argument'
     return f'reader-uses-set-misses-it:{type(node).__name__}'
 
@@ -239,15 +239,14 @@ def check_case(case, ctx):
                     if not vs:
                         continue
                     rinner, rvia = fact[-3], fact[-2]
+                    # a read performed inside a callee (CALL or function reference) of a variable that the calling
+                    # statement does not mention is a host-associated read of an internal procedure
                     host_read = False
-                    if rvia is not None and rvia in table and table[rvia]['kind'] == 'call':
-                        st = table[rvia]['stmt']
-                        actual = set()
-                        for a_ in list(st[2]) + list((st[3] if len(st) > 3 and st[3] else {}).values()):
-                            actual |= vars_in(a_)
-                        host_read = not (vs & actual)
-                    elif rvia is not None:
-                        host_read = True    # read inside a function referenced in an expression or an untabulated call
+                    if rvia is not None:
+                        q = rvia
+                        while q not in table and '.' in q:      # e.g. the statement of a one-line IF shares its line
+                            q = q.rsplit('.', 1)[0]
+                        host_read = q not in table or not (vs & dc.fold(vars_in(header_exprs(table[q]['stmt']))))
                     if fact[0] == 'carried':
                         lp = fact[1]
                         node = nodes.get(lp)
